@@ -118,7 +118,7 @@ deriving Repr
 namespace Midi
 
 def new (channel : Nat) : Midi :=
-  { parser := .idle, channel := Nat.min channel 15, noteNum := 0,
+  { parser := .idle, channel := min channel 15, noteNum := 0,
     velocity := zero, pitchBend := zero, modWheel := zero, volume := zero, vcfCutoff := zero,
     vcfResonance := zero, portamentoTime := zero, portamentoEnabled := true, sustainEnabled := true,
     gate := false, risingGate := false, fallingGate := false,
